@@ -318,6 +318,67 @@ func genSuggestUser(r *RNG, common []string) *sCase {
 			sc.MustNot = append(sc.MustNot, "decoy_i", "decoy_s")
 		}
 	}
+	// the cursor inside a method body (rows follow it) instead of on the last
+	// row of the file: a local variable, the class name, or self
+	if !strings.Contains(sc.Kind, "same-name-other-namespace") && r.Chance(1, 3) {
+		if strings.HasPrefix(lines[len(lines)-1], "obj = ") {
+			lines = lines[:len(lines)-1]
+		}
+		inst := strings.HasPrefix(sc.Kind, "user-instance")
+		selfForm := r.Bool() && ti < nsFrom // self: inside the (top-level) target class itself
+		switch {
+		case selfForm && inst:
+			emit("class " + target.name)
+			emit("  def cursor_here")
+			emit("    self.")
+			sc.Row = len(lines)
+			emit("  end")
+			emit("end")
+			sc.Recv = "self"
+			sc.Kind = "self-in-instance-method"
+			// self answers its private methods too: not judged either way
+			var mn []string
+			for _, n := range sc.MustNot {
+				if !contains(hiddenOfOthers, n) {
+					mn = append(mn, n)
+				}
+			}
+			sc.MustNot = mn
+		case selfForm:
+			emit("class " + target.name)
+			emit("  def self.cursor_here")
+			emit("    self.")
+			sc.Row = len(lines)
+			emit("  end")
+			emit("end")
+			sc.Recv = "self"
+			sc.Kind = "self-in-class-method"
+		case inst:
+			emit("class Editor")
+			emit("  def edit")
+			emit("    obj = " + targetRef + ".new")
+			emit("    obj.")
+			sc.Row = len(lines)
+			emit("  end")
+			emit("end")
+			sc.Recv = "obj"
+			sc.Kind = "user-instance-in-method-body"
+		default:
+			emit("class Editor")
+			emit("  def edit")
+			emit("    " + targetRef + ".")
+			sc.Row = len(lines)
+			emit("  end")
+			emit("end")
+			sc.Kind = "user-class-in-method-body"
+		}
+		emit("x = 1")
+		if nsFrom < depth && ti >= nsFrom {
+			sc.Kind += "+namespaced"
+		}
+		sc.Source = strings.Join(lines, "\n") + "\n"
+		return sc
+	}
 	if nsFrom < depth && ti >= nsFrom {
 		sc.Kind += "+namespaced"
 		if nsFrom > 0 {
